@@ -81,7 +81,7 @@ load_audio(void)
 
 /* --synth semi|ms|mixw: decoders load a synthetic model (see synth_model.h) instead of the bundled one */
 static char SYNTH_DIR[600];
-static int SYNTH_MS;
+static int SYNTH_MS, MAXHMMPF;
 static void
 synth_cleanup(void)
 {
@@ -99,6 +99,8 @@ make_decoder(void)
         config_set_str(cfg, "senmgau", ".semi.");
     config_set_str(cfg, "dict", DICT_PATH);
     config_set_str(cfg, "loglevel", "FATAL");
+    if (MAXHMMPF > 0)
+        config_set_int(cfg, "maxhmmpf", MAXHMMPF); /* the cap that makes the search narrow its beams dynamically */
     d = decoder_init(cfg);
     if (!d) {
         fprintf(stderr, "decoder_init failed\n");
@@ -134,6 +136,7 @@ static const char *const OPNAME[NOPS] = {
 enum { ST_IDLE, ST_ACTIVE, ST_ENDED };
 typedef struct {
     int st, has_search, freed;
+    int g1; /* the active grammar is G1, loaded by the last successful grammar operation */
     /* reference dictionary: words the history added successfully */
     struct {
         const char *word, *phones;
@@ -345,6 +348,7 @@ apply_op(model_t *m, int op, const char *cd)
         if (expect_ret(rv == 0, cd, OPNAME[op], sn, "0", rv) < 0)
             return -1;
         m->has_search = 1;
+        m->g1 = op == OP_SET_G1;
         if (m->st == ST_ENDED)
             m->st = ST_IDLE; /* results of the previous utterance are gone with its search */
         break;
@@ -358,6 +362,7 @@ apply_op(model_t *m, int op, const char *cd)
         if (expect_ret(rv == 0, cd, OPNAME[op], sn, "0", rv) < 0)
             return -1;
         m->has_search = 1;
+        m->g1 = 0;
         if (m->st == ST_ENDED)
             m->st = ST_IDLE;
         break;
@@ -365,6 +370,7 @@ apply_op(model_t *m, int op, const char *cd)
         rv = decoder_set_align_text(D, "");
         if (rv == 0) {
             m->has_search = 1;
+            m->g1 = 0;
             if (m->st == ST_ENDED)
                 m->st = ST_IDLE;
         }
@@ -408,6 +414,7 @@ apply_op(model_t *m, int op, const char *cd)
         if (expect_ret(rv == 0, cd, "reinit", sn, "0", rv) < 0)
             return -1;
         m->has_search = 0; /* the configuration names no grammar */
+        m->g1 = 0;
         m->st = ST_IDLE;
         m->nadded = 0; /* the dictionary is read again from its file */
         break;
@@ -496,9 +503,11 @@ digest(decoder_t *d, char *buf, size_t n)
 
 /* streaming probe (channel normalisation reset first) and batch probe (no reset needed) */
 static int
-probe(decoder_t *d, char *dstream, char *dbatch, size_t n)
+probe(decoder_t *d, char *dstream, char *dbatch, size_t n, int setgram)
 {
-    if (decoder_set_jsgf_string(d, G1) < 0)
+    /* the probe grammar is loaded only when the history left another one: loading a grammar creates a new search
+     * object and would hide whatever the old one carried over from its last utterance */
+    if (setgram && decoder_set_jsgf_string(d, G1) < 0)
         return -1;
     /* FIRST a whole-utterance decode whose LENGTH equals that of the history's main utterance (procA) but whose content
      * differs: anything cached per frame count (the second-pass aligner, say) shows here, before another query replaces it */
@@ -629,6 +638,7 @@ run_hist(const hist_t *h)
     memset(&m, 0, sizeof m);
     m.st = ST_IDLE;
     m.has_search = 1;
+    m.g1 = 1;
     decoder_t *d2 = NULL;
     int step2 = 0;
     if (TWO)
@@ -662,6 +672,7 @@ run_hist(const hist_t *h)
         if (P_C16)
             for (i = 0; i < m.nadded; i++) {
                 char g[256];
+                m.g1 = 0;
                 /* a numbered alternate is not a JSGF token; it is used through its base word */
                 snprintf(g, sizeof g, "#JSGF V1.0; grammar x; public <s> = go %s;", strchr(m.added[i].word, '(') ? "go" : m.added[i].word);
                 if (decoder_set_align_text(D, m.added[i].word) < 0 || decoder_set_jsgf_string(D, g) < 0) {
@@ -704,7 +715,9 @@ run_hist(const hist_t *h)
                 }
             }
         if (P_C08) {
-            rc = probe(D, ds, db, sizeof ds);
+            /* with dictionary additions the grammar is always loaded again, on both sides: a loaded grammar keeps the alternates it
+             * was built with, so the order of additions and loads would otherwise have to be replayed on the reference */
+            rc = probe(D, ds, db, sizeof ds, m.nadded > 0 || !m.g1);
             if (rc < 0) {
                 mc_viol("C08/decoder-unusable-after-history", cd, "the probe utterance failed at step %d after this history", -rc);
                 goto out;
@@ -724,7 +737,7 @@ run_hist(const hist_t *h)
                 char fs[DIGN], fb[DIGN];
                 for (i = 0; i < m.nadded; i++)
                     decoder_add_word(f, m.added[i].word, m.added[i].phones, 1);
-                rc = probe(f, fs, fb, sizeof fs);
+                rc = probe(f, fs, fb, sizeof fs, 1);
                 decoder_free(f);
                 if (rc < 0 || strcmp(ds, fs) != 0 || strcmp(db, fb) != 0) {
                     mc_viol(strcmp(ds, fs) ? "C08/streaming-result-depends-on-history" : "C08/batch-result-depends-on-history", cd,
@@ -740,7 +753,7 @@ run_hist(const hist_t *h)
         char s2[DIGN], b2[DIGN];
         if ((step2 % 4) == 1 || (step2 % 4) == 2)
             decoder_end_utt(d2);
-        rc = probe(d2, s2, b2, sizeof s2);
+        rc = probe(d2, s2, b2, sizeof s2, 0);
         if (P_C08 && (rc < 0 || strcmp(s2, REF_STREAM) != 0 || strcmp(b2, REF_BATCH) != 0)) {
             mc_viol("C08/second-decoder-influenced", cd, "a second decoder used between these operations gives %s | alone: %s", rc < 0 ? "(probe failed)" : strcmp(s2, REF_STREAM) ? s2 : b2,
                     strcmp(s2, REF_STREAM) ? REF_STREAM : REF_BATCH);
@@ -828,6 +841,7 @@ main(int argc, char **argv)
     sscanf(mc_arg(argc, argv, "--shard", "0/1"), "%d/%d", &shard, &nshard);
     MAXL = atoi(mc_arg(argc, argv, "--len", "2"));
     TWO = atoi(mc_arg(argc, argv, "--two", "0"));
+    MAXHMMPF = atoi(mc_arg(argc, argv, "--maxhmmpf", "0"));
     if (strcmp(set, "proto") == 0)
         SET_N = N_PROTO;
     else if (strcmp(set, "core") == 0)
@@ -866,7 +880,7 @@ main(int argc, char **argv)
     /* reference digests from a fresh decoder, which is then released */
     {
         decoder_t *f = make_decoder();
-        int rc = probe(f, REF_STREAM, REF_BATCH, sizeof REF_STREAM);
+        int rc = probe(f, REF_STREAM, REF_BATCH, sizeof REF_STREAM, 0);
         decoder_free(f);
         if (rc < 0) {
             fprintf(stderr, "probe failed on a fresh decoder (%d)\n", rc);
